@@ -314,4 +314,46 @@ def du6_as_table(ctx):
     pattern_field_check(ctx, 'DU6', 'as_duration')
 
 
-RULES = [('DU1', du1_constants), ('DU2', du2_parse_table), ('DU3', du3_additivity), ('DU4', du4_print_chain), ('DU5', du5_formats), ('DU6', du6_as_table)]
+def du7_whole_before_floor(ctx):
+    """DU7 `D1 D2 .. as unit` floors the *whole* duration. The rule list is applied in BTreeMap (alphabetical) order, so
+    as_duration is tried before combine_durations; it cannot fire on the last component alone only because the pattern scan
+    never restarts a pattern on a token that just failed it: the scan index of find_match is assigned 0 or itself + 1, no
+    reference to it is taken (it cannot be moved back by a helper), the pattern counter is only reset to 0 or incremented,
+    and the start index is only ever set to the scan index. A scan that re-examines the failing token lets as_duration match
+    `D2 as unit` inside `D1 D2 as unit`."""
+    from ..facts import opplace
+    ctx.rule('DU7', 'components are combined before `as` floors', floor=3)
+    for lang, L in sorted(ctx.config.languages.items()):
+        names = sorted(L.get('rules', {}))
+        if 'as_duration' in names and 'combine_durations' in names:
+            first = 'as_duration' if names.index('as_duration') < names.index('combine_durations') else 'combine_durations'
+            ctx.analysed('DU7', '%s: %s is tried first (alphabetical rule order)' % (lang, first))
+    b = ctx.facts.one(r'^tokinizer::rule_tokinizer::find_match$')
+    ctx.fn(b)
+    want = {'target_token_index': {'0', '($target_token_index AddWithOverflow 1).#0', '($target_token_index Add 1)'},
+            'rule_token_index': {'0', '($rule_token_index AddWithOverflow 1).#0', '($rule_token_index Add 1)'},
+            'start_token_index': {'0', '$target_token_index'}}
+    for nm, allowed in sorted(want.items()):
+        locs = [l for l, n in b.names.items() if n == nm]
+        if len(locs) != 1:
+            raise AnchorLost('find_match: expected one local named %s, found %d' % (nm, len(locs)))
+        l = locs[0]
+        texts = []
+        b._shallow = 'mut'
+        try:
+            for (bid, kind, x) in b.defs().get(l, []):
+                texts.append(render(b.def_expr(bid, kind, x, 1, frozenset())) if kind == 'stmt' else 'call')
+        finally:
+            b._shallow = False
+        refs = [st['loc'] for i in b.normal_blocks for st in b.blocks[i]['stmts'] if st['k'] == 'assign' and st['rv'] in ('ref', 'rawptr')
+                and (opplace(st['ops'][0]) or {}).get('local') == l and not (opplace(st['ops'][0]) or {}).get('proj')]
+        bad = sorted(set(texts) - allowed)
+        if bad:
+            ctx.finding('DU7', 'find_match/%s/assigned' % nm, 'the pattern scan assigns %s = %s; a scan that can step back or restart on the failing token lets `as` floor the last component alone' % (nm, bad[0][:60]), site=b.loc)
+        elif refs:
+            ctx.finding('DU7', 'find_match/%s/address-taken' % nm, 'a reference to the scan variable %s is handed out (%s): a helper can move the scan back, so `D1 D2 as unit` may be floored component-wise' % (nm, refs[0]), site=refs[0])
+        else:
+            ctx.ok('DU7', 'find_match: %s is only assigned %s and never borrowed' % (nm, sorted(set(texts))), 'shape', site=b.loc)
+
+
+RULES = [('DU1', du1_constants), ('DU2', du2_parse_table), ('DU3', du3_additivity), ('DU4', du4_print_chain), ('DU5', du5_formats), ('DU6', du6_as_table), ('DU7', du7_whole_before_floor)]
